@@ -1,6 +1,224 @@
+//! Builds the library under test from /repo's CURRENT working tree with its nondeterminism behind
+//! the simulator's seams.  Two mechanisms, both applied:
+//!  * `--cfg rs_store_verif` selects the guarded import lines committed in /repo (MANIFEST.hooks);
+//!  * every source file is copied to OUT_DIR with `std::sync`, `std::thread` and `std::time` paths
+//!    rewritten to `simrt::...`, so that code ADDED by a change under test (a new `std::sync::RwLock`,
+//!    a `std::thread::sleep` spelled out in full, an un-guarded atomic) is simulated as well.
+//! crossbeam, rusty_pool and num_cpus are substituted as dependencies (see ../shims).
+use std::fs;
+use std::path::{Path, PathBuf};
+
+const SRC: &str = "/repo/src";
+
 fn main() {
     println!("cargo:rustc-cfg=rs_store_verif");
     println!("cargo:rustc-check-cfg=cfg(rs_store_verif)");
     println!("cargo:rustc-check-cfg=cfg(dev)");
     println!("cargo:rerun-if-changed=build.rs");
+    println!("cargo:rerun-if-changed={SRC}");
+    let out = PathBuf::from(std::env::var("OUT_DIR").unwrap()).join("src");
+    let _ = fs::remove_dir_all(&out);
+    copy_tree(Path::new(SRC), &out, Path::new(SRC), &out);
+}
+
+fn copy_tree(dir: &Path, out_dir: &Path, root: &Path, out_root: &Path) {
+    fs::create_dir_all(out_dir).unwrap();
+    let mut entries: Vec<_> = fs::read_dir(dir).unwrap().map(|e| e.unwrap().path()).collect();
+    entries.sort();
+    for p in entries {
+        let name = p.file_name().unwrap().to_owned();
+        println!("cargo:rerun-if-changed={}", p.display());
+        if p.is_dir() {
+            copy_tree(&p, &out_dir.join(&name), root, out_root);
+        } else if p.extension().map(|e| e == "rs").unwrap_or(false) {
+            let text = fs::read_to_string(&p).unwrap();
+            let is_root = p == root.join("lib.rs");
+            let text = rewrite(&text, &p, root, out_root, is_root);
+            fs::write(out_dir.join(&name), text).unwrap();
+        }
+    }
+}
+
+/// directory in which the out-of-line child modules of the module in file `p` live
+fn child_dir(p: &Path) -> PathBuf {
+    let stem = p.file_stem().unwrap().to_str().unwrap();
+    let dir = p.parent().unwrap();
+    if stem == "lib" || stem == "mod" || stem == "main" {
+        dir.to_path_buf()
+    } else {
+        dir.join(stem)
+    }
+}
+
+fn rewrite(text: &str, p: &Path, root: &Path, out_root: &Path, is_root: bool) -> String {
+    let text = split_std_groups(text);
+    let mut out = String::with_capacity(text.len() + 256);
+    let mut prev_had_path_attr = false;
+    for line in text.lines() {
+        let t = line.trim_start();
+        // the crate root is include!d: inner attributes and inner doc comments cannot stay
+        if is_root && (t.starts_with("//!") || t.starts_with("#![")) {
+            out.push_str("//");
+            out.push_str(line);
+            out.push('\n');
+            continue;
+        }
+        // out-of-line module declarations get an absolute #[path] (an include!d or #[path]ed file
+        // does not resolve `mod x;` the way its original location did)
+        if let Some(name) = mod_decl(t) {
+            if !prev_had_path_attr {
+                let cd = child_dir(p);
+                let cand = [cd.join(format!("{name}.rs")), cd.join(&name).join("mod.rs")];
+                if let Some(src) = cand.iter().find(|c| c.exists()) {
+                    let rel = src.strip_prefix(root).unwrap();
+                    out.push_str(&format!("#[path = \"{}\"]\n", out_root.join(rel).display()));
+                }
+            }
+        }
+        prev_had_path_attr = t.starts_with("#[path");
+        out.push_str(&seams(line));
+        out.push('\n');
+    }
+    out
+}
+
+/// `pub(crate) mod name;` -> Some("name")
+fn mod_decl(t: &str) -> Option<String> {
+    if !t.ends_with(';') {
+        return None;
+    }
+    let mut rest = t;
+    if let Some(r) = rest.strip_prefix("pub") {
+        rest = r.trim_start();
+        if rest.starts_with('(') {
+            rest = rest[rest.find(')')? + 1..].trim_start();
+        }
+    }
+    let rest = rest.strip_prefix("mod ")?;
+    let name = rest.trim_end_matches(';').trim();
+    if !name.is_empty() && name.chars().all(|c| c.is_alphanumeric() || c == '_') {
+        Some(name.to_string())
+    } else {
+        None
+    }
+}
+
+/// `std::sync`, `std::thread`, `std::time` as path prefixes -> `simrt::...`
+fn seams(line: &str) -> String {
+    let b = line.as_bytes();
+    let is_id = |c: u8| c.is_ascii_alphanumeric() || c == b'_';
+    let mut out = String::with_capacity(line.len() + 8);
+    let mut i = 0;
+    while i < b.len() {
+        if line[i..].starts_with("std::") && (i == 0 || !is_id(b[i - 1])) {
+            let rest = &line[i + 5..];
+            let hit = ["sync", "thread", "time"].iter().find(|m| rest.starts_with(**m) && rest.as_bytes().get(m.len()).map(|c| !is_id(*c)).unwrap_or(true));
+            if hit.is_some() {
+                out.push_str("simrt::");
+                i += 5;
+                continue;
+            }
+        }
+        // push one whole UTF-8 character
+        let ch = line[i..].chars().next().unwrap();
+        out.push(ch);
+        i += ch.len_utf8();
+    }
+    out
+}
+
+/// `use std::{sync::{Arc, Mutex}, thread, fmt};` -> `use {std::sync::{Arc, Mutex}, std::thread, std::fmt};`
+/// (still one statement, so an attribute in front of it keeps governing all of it)
+fn split_std_groups(text: &str) -> String {
+    let mut out = String::with_capacity(text.len());
+    let mut rest = text;
+    loop {
+        let Some(pos) = find_use_std_group(rest) else {
+            out.push_str(rest);
+            return out;
+        };
+        let (before, from) = rest.split_at(pos);
+        out.push_str(before);
+        let open = from.find('{').unwrap();
+        let mut depth = 0usize;
+        let mut end = None;
+        for (i, c) in from[open..].char_indices() {
+            match c {
+                '{' => depth += 1,
+                '}' => {
+                    depth -= 1;
+                    if depth == 0 {
+                        end = Some(open + i);
+                        break;
+                    }
+                }
+                _ => {}
+            }
+        }
+        let Some(close) = end else {
+            out.push_str(from);
+            return out;
+        };
+        let body = &from[open + 1..close];
+        let mut items = vec![];
+        let mut depth = 0usize;
+        let mut cur = String::new();
+        for c in body.chars() {
+            match c {
+                '{' => {
+                    depth += 1;
+                    cur.push(c)
+                }
+                '}' => {
+                    depth -= 1;
+                    cur.push(c)
+                }
+                ',' if depth == 0 => {
+                    items.push(cur.trim().to_string());
+                    cur.clear();
+                }
+                _ => cur.push(c),
+            }
+        }
+        if !cur.trim().is_empty() {
+            items.push(cur.trim().to_string());
+        }
+        let items: Vec<String> = items
+            .iter()
+            .map(|it| {
+                let it: String = it.split_whitespace().collect::<Vec<_>>().join(" ");
+                if it == "self" {
+                    "std".to_string()
+                } else {
+                    format!("std::{it}")
+                }
+            })
+            .collect();
+        // keep the line count: the group's newlines are re-inserted after the statement
+        let newlines = from[..close].matches('\n').count();
+        out.push_str("use {");
+        out.push_str(&items.join(", "));
+        out.push('}');
+        rest = &from[close + 1..];
+        if let Some(semi) = rest.find(';') {
+            out.push_str(&rest[..semi + 1]);
+            rest = &rest[semi + 1..];
+        }
+        for _ in 0..newlines {
+            out.push('\n');
+        }
+    }
+}
+
+fn find_use_std_group(s: &str) -> Option<usize> {
+    let mut from = 0;
+    while let Some(i) = s[from..].find("use std::{") {
+        let at = from + i;
+        let ok = at == 0 || s[..at].ends_with(|c: char| c.is_whitespace() || c == ';' || c == '}' || c == ')');
+        if ok {
+            return Some(at);
+        }
+        from = at + 1;
+    }
+    None
 }
